@@ -108,6 +108,19 @@ class World(object):
             t = ("rand_" if w[3] else "") + ("int_t" if kind == "s" else "bit_t")
             setattr(self.W, name, getattr(vsc, t)(w[2]))
             self.shadow["fields"][name] = P.mk_scalar(w[2], kind == "s", w[3])
+        elif kind == "list":
+            # a free-standing list: w = [name, "list", elem, size, rand, randsz]
+            elem, size, lrand, randsz = w[2], w[3], w[4], w[5]
+            et = getattr(vsc, "int_t" if elem[0] == "s" else "bit_t")(elem[1])
+            if randsz:
+                lst = vsc.randsz_list_t(et)
+                for _ in range(size):
+                    lst.append(0)
+            else:
+                lst = (vsc.rand_list_t if lrand else vsc.list_t)(et, sz=size)
+            setattr(self.W, name, lst)
+            self.shadow["fields"][name] = {"k": "l", "elem": list(elem), "rand": lrand, "rand_mode": lrand, "randsz": randsz,
+                                           "elems": [P.mk_elem(self.prog, elem, lrand) for _ in range(size)]}
         else:
             raise Exception("world kind " + kind)
 
